@@ -182,6 +182,13 @@ func init() {
 	register(Profile{Property: "C15", Name: "reverts", Gen: func(r *RNG, seed uint64, tier string) (*Scenario, *ExploreCfg) {
 		sc := mixedScenario(r, "C15", "reverts", mixOpts{clients: [2]int{2, 3}, opsPer: [2]int{1, 4}, wPostings: 2, wScript: 1, wRevert: 7, wMeta: 0, wIK: 0.1,
 			funds: fmt.Sprint(5 + r.Intn(30)), extraTx: 3, v1: 0.15}, "reverts", "conservation", "logs-match-ops", "revert-answers")
+		// some of the transactions to revert carry an effective date of their own, away from their insertion date
+		// (wave 16, C15e: a revert at the effective date dated at the original's insertion)
+		for i := range sc.Setup {
+			if sc.Setup[i].Kind == KPostings && r.Chance(0.5) {
+				sc.Setup[i].Timestamp = Pick(r, []string{"1999-12-31T23:59:59Z", "1999-06-01T00:00:00Z", "1990-01-01T12:00:00.123456Z", "2000-01-02T00:00:00Z"})
+			}
+		}
 		ex := defaultExplore(seed, 0, 0)
 		if r.Chance(0.4) {
 			ex = defaultExplore(seed, 0.04, 2, FDeadlock, FStmtErr, FConnLost, FCommitClean, FDisconnect, FCrash)
